@@ -45,22 +45,26 @@ func mergedEnumerate(ctx context.Context, dest chan<- blob.SizedRef, nsrc int, g
 	subctx, cancel := context.WithCancel(ctx)
 	defer cancel()
 
-	errch := make(chan error, nsrc+1) // +1 for nil
-	startEnum := func(source BlobEnumerator) *blob.ChanPeeker {
+	// errs[i] receives the result of source i's enumeration once it has
+	// returned, which is after it closed its channel.
+	errs := make([]chan error, nsrc)
+	startEnum := func(i int, source BlobEnumerator) *blob.ChanPeeker {
 		ch := make(chan blob.SizedRef, buffered)
+		errs[i] = make(chan error, 1)
 		go func() {
-			err := source.EnumerateBlobs(subctx, ch, after, limit)
-			if err != nil {
-				errch <- err
-			}
+			errs[i] <- source.EnumerateBlobs(subctx, ch, after, limit)
 		}()
 		return &blob.ChanPeeker{Ch: ch}
 	}
 
 	peekers := make([]*blob.ChanPeeker, 0, nsrc)
 	for i := range nsrc {
-		peekers = append(peekers, startEnum(getSource(i)))
+		peekers = append(peekers, startEnum(i, getSource(i)))
 	}
+	// finished[i] is set once source i's channel was seen closed and its
+	// result checked: a closed channel alone does not tell an exhausted
+	// source from one that failed.
+	finished := make([]bool, nsrc)
 
 	nSent := 0
 	var lastSent blob.Ref
@@ -73,6 +77,13 @@ func mergedEnumerate(ctx context.Context, dest chan<- blob.SizedRef, nsrc int, g
 				peeker.Take()
 			}
 			if peeker.Closed() {
+				if !finished[idx] {
+					finished[idx] = true
+					// If any part returns an error, we return an error.
+					if err := <-errs[idx]; err != nil {
+						return err
+					}
+				}
 				continue
 			}
 			sb := peeker.MustPeek() // can't be nil if not Closed
@@ -92,12 +103,7 @@ func mergedEnumerate(ctx context.Context, dest chan<- blob.SizedRef, nsrc int, g
 			lastSent = lowest.Ref
 		case <-ctx.Done():
 			return ctx.Err()
-		case err := <-errch:
-			return err
 		}
 	}
-
-	// If any part returns an error, we return an error.
-	errch <- nil
-	return <-errch
+	return nil
 }
